@@ -423,3 +423,50 @@ class LPAny(_NoReturnOnTruncation):
 
 
 C05_SECTION_UNITS = [PHAny, UHAny, MTAny, EHAny, LPAny]
+
+
+# ------------------------------------------------------------------ C05: the target-LP loop for ANY count (invariant)
+from pyvc.unit import LoopInv as _LoopInv
+from pyvc.seq import Chunk as _Chunk, Val as _Val
+
+
+class LPTargetsInv(_LoopInv):
+    """after i target ids: the cursor is 2*i bytes past the start of the id array and inside the input; the list read so far
+    is an opaque function of those bytes"""
+    func = PT + "imp_partition.ImpactedPartition.toJSON"
+    loop = 0
+    modifies_locals = ('_',)
+
+    def heap_targets(self, it, fr):
+        me = fr.locals['self']
+        return [field(me, 'targetLPs'), (field(me, 'stream'), 'index')]
+
+    def base(self, it, fr):
+        ctx = it.ctx
+        if 'lp_base' not in ctx.ghost:
+            ctx.ghost['lp_base'] = field(field(fr.locals['self'], 'stream'), 'index')
+        return ctx.ghost['lp_base']
+
+    def havoc(self, it, fr, i):
+        b = self.base(it, fr)
+        me = fr.locals['self']
+        field(me, 'stream').index = simp(zint(b) + 2 * zint(i))
+        T = ufun('lp_targets_upto', z3.IntSort(), z3.IntSort(), _Val)
+        field(me, 'targetLPs')[:] = [_Chunk(T(zint(b), zint(i)))]
+
+    def inv(self, it, fr, i):
+        b = self.base(it, fr)
+        s = field(fr.locals['self'], 'stream')
+        return And(Eq(field(s, 'index'), zint(b) + 2 * zint(i)), field(s, 'index') <= field(s, 'size'), field(s, 'index') >= 0)
+
+
+class LPAnyN(_NoReturnOnTruncation):
+    """the same for ANY target count 0..255 (the id loop is cut by its invariant)"""
+    name = "ImpactedPartition.toJSON (any bytes, any target count)"
+    target = PT + "imp_partition.ImpactedPartition.toJSON"
+    cls = PT + "imp_partition.ImpactedPartition"
+    invariants = [LPTargetsInv]
+    body = staticmethod(LPAny.body)
+
+
+C05_SECTION_UNITS = C05_SECTION_UNITS + [LPAnyN]
